@@ -75,6 +75,7 @@ def run_scenario(item):
         incopy = {}
         prev_state = {}
         waited = set()
+        sent_at = {}      # client -> when its pending request was sent
         settles = []      # (number of hook events seen, pids of clients the model says hold no server)
 
         def note(kind, **kw):
@@ -88,6 +89,7 @@ def run_scenario(item):
         def read_pending(name, timeout=3.0):
             c = clients[name]
             serials = outstanding.pop(name)
+            was_waiting = name in waited
             rep = c.read_reply(timeout=timeout, stop=('Z', 'G'))
             if rep.end == 'G':
                 incopy[name] = True
@@ -98,8 +100,11 @@ def run_scenario(item):
             waited.discard(name)
             # every echo must carry one of the serials of this request and this client
             if any('could not get connection from the pool' in (e.get('M') or '') for e in rep.errors):
-                # the design model says a connection is available for this client
-                note('waiter_refused', client=name, got=rep.brief())
+                # the design model says a connection is available for this client - unless the model had it waiting and the
+                # steps of the harness in between took longer than the connect timeout (then CheckoutTimeout is a
+                # behaviour of the model as well)
+                if not (was_waiting and time.time() - sent_at.get(name, time.time()) > 0.45):
+                    note('waiter_refused', client=name, got=rep.brief())
             for e in rep.echoes():
                 ok = e.get('c') == name and e.get('n') in serials
                 w.log.add(ev='result', client=name, n=e.get('n') if ok else (serials[0] if serials else -1),
@@ -173,13 +178,16 @@ def run_scenario(item):
                 if k == 'copydone':
                     c.send(W.CopyData(b'1\n') + W.CopyDone())
                     outstanding[name] = [c.serial]
+                    sent_at[name] = time.time()
                 elif k == 'copyfail':
                     c.send(W.CopyData(b'1\n') + W.CopyFail('client gave up'))
                     outstanding[name] = [c.serial]
+                    sent_at[name] = time.time()
                 elif k == 'local':
                     # a batch the pooler answers itself: a lone Sync
                     c.send(W.Sync())
                     outstanding[name] = []
+                    sent_at[name] = time.time()
                 else:
                     if k == 'set':
                         sql = rng.choice(SET_VARIANTS) + ' ' + c.tag()
@@ -201,6 +209,7 @@ def run_scenario(item):
                         serials = [c.serial]
                     c.send(W.Q(sql))
                     outstanding[name] = serials
+                    sent_at[name] = time.time()
             elif op == 'send_vanish':
                 # the client sends a message and its socket is reset while the message is being served
                 c = clients[name]
